@@ -245,6 +245,16 @@ def gen_sequences(rng, n, pool=None):
                 "\\p{Script=Greek}", "(?<é>)", "\\k<é>", "(?<a", "(", ")", "\\", "", "a", "(?<a>)(?<a>)", "\\k",
                 "\\k<a", "{1}", "a{99999999999999999999}", "(?<\\u0061>)\\k<a>", "😀)", "(?<😀>)", "[😀-😁]"]
     out = []
+    # sequences of deeply nested invalid patterns followed by deep valid ones (state not unwound on error paths)
+    for _ in range(max(20, n // 40)):
+        seq = []
+        for _ in range(rng.randint(2, 5)):
+            d = rng.choice([40, 80, 120])
+            seq.append(("(?:a|(b)" * d + ")" * rng.randint(0, d // 2), rng.random() < 0.5))
+        d = rng.choice([30, 60, 100, 150])
+        seq.append(("(" * d + "x" + ")" * d, rng.random() < 0.5))
+        seq.append(("a", False))
+        out.append(seq)
     for _ in range(n):
         k = rng.randint(2, 6)
         seq = []
@@ -671,30 +681,30 @@ def compare_v8(decisions):
 
 
 # the alphabet over which the grammar fragment of coq/Regex/Grammar.v is enumerated (every symbol satisfies frag_char)
-FRAGMENT_ALPHABET = list("a.|()?*+:")
+FRAGMENT_ALPHABET = list("a.|()?*+:^$=!<")
 
 
 def model_recognises(strings):
-    """extracted recogniser of the grammar fragment: [(in_fragment, recognises)]"""
+    """extracted recogniser of the grammar fragment: [(in_fragment, recognises without u, recognises with u)]"""
     out = run_model("regex", "frag", [enc_str(s) for s in strings])
-    return [tuple(int(x) != 0 for x in ln.split()[:2]) for ln in out]
+    return [tuple(int(x) != 0 for x in ln.split()[:3]) for ln in out]
 
 
 def compare_grammar_v8(maxlen, alphabet=None):
-    """Grammar.v (through its recogniser, proved sound and complete for `Pattern u` on the fragment) vs V8 on every
-    string over the fragment alphabet up to maxlen, in both modes.  Returns (n, mismatches)."""
+    """Grammar.v (through its recogniser, proved sound and complete for `Pattern u` on the fragment alphabet) vs V8 on
+    every string over the fragment alphabet up to maxlen that satisfies in_fragment, in both modes.
+    Returns (n_in_fragment, n_accepted, mismatches)."""
     alphabet = alphabet or FRAGMENT_ALPHABET
     strs = list(gen_exhaustive(maxlen, alphabet))
     rec = model_recognises(strs)
-    v8n = v8_verdicts([(s, "") for s in strs])
-    v8u = v8_verdicts([(s, "u") for s in strs])
+    keep = [(s, r) for s, r in zip(strs, rec) if r[0]]      # `(?<x` (named group) is outside the fragment
+    v8n = v8_verdicts([(s, "") for s, _ in keep])
+    v8u = v8_verdicts([(s, "u") for s, _ in keep])
     mism = []
-    for s, (inf, ok), tn, tu in zip(strs, rec, v8n, v8u):
-        if not inf:
-            mism.append({"kind": "grammar", "pattern": s, "why": "generated string is not in_fragment"})
-        elif tn is None or tu is None or ok != (not tn) or ok != (not tu):
-            mism.append({"kind": "grammar", "pattern": s, "recognises": ok, "v8_throws": tn, "v8_throws_u": tu})
-    return len(strs), sum(1 for _, ok in rec if ok), mism
+    for (s, (_, okn, oku)), tn, tu in zip(keep, v8n, v8u):
+        if tn is None or tu is None or okn != (not tn) or oku != (not tu):
+            mism.append({"kind": "grammar", "pattern": s, "recognises": okn, "recognises_u": oku, "v8_throws": tn, "v8_throws_u": tu})
+    return len(keep), sum(1 for _, r in keep if r[1]) + sum(1 for _, r in keep if r[2]), mism
 
 
 def compare_history(seqs):
@@ -797,7 +807,7 @@ def compare_all(tier="quick", seed=1):
         counts["debug_seq_items"] = n; mism += m
 
     # ---- (6) the specification side: V8
-    ng, ngok, gm = compare_grammar_v8(7 if thorough else 6)
+    ng, ngok, gm = compare_grammar_v8(6 if thorough else 5)
     counts["grammar_strings"] = ng; counts["grammar_accepted"] = ngok
     nv, classes, unknown, nexc = compare_v8(flat)
     counts["v8_compared"] = nv
